@@ -2,6 +2,7 @@
 from vlib import drive, close
 from harness.common import NAMES, VOID, CAT
 from harness import cons as H
+from harness.variants import clone
 
 SPEC = {
     "gen": [],
@@ -83,7 +84,23 @@ def oracle(ctx, widen=1):
     maxc = {"det": 1, "ref": 1, "samp": 3}
     for hi, ops in enumerate(histories(ctx, n, maxlen)):
         c = Constraints()
+        frozen = []      # (object left behind when the history carried on with a copy of it, its state at that moment, how it was copied)
         for oi, op in enumerate(ops):
+            if oi and ctx.rng.random() < 0.06:
+                # the set of constraints is a value: carry on with a copy / deep copy / unpickled copy; the original must stay as it is
+                try:
+                    c_new, how = clone(ctx.rng, c, ways=("deepcopy", "copy", "pickle"))
+                except Exception as e:  # noqa
+                    ctx.violation(f"copying / pickling a used constraint set raised {type(e).__name__}: {str(e)[:100]} (history {[H.op_line(o) for o in ops[:oi]][-6:]})",
+                                  {"lines": [H.op_line(o) for o in ops[:oi]]}, {"kind": "copy", "how": "raised"})
+                    break
+                if not H.same_state(H.state_of(c_new), H.state_of(c)):
+                    ctx.violation(f"a {how} of the constraint set holds {H.show_state(H.state_of(c_new))} instead of {H.show_state(H.state_of(c))} "
+                                  f"(history {[H.op_line(o) for o in ops[:oi]][-6:]})", {"lines": [H.op_line(o) for o in ops[:oi]], "how": how}, {"kind": "copy", "how": how})
+                    break
+                if how != "copy":
+                    frozen.append((c, H.state_of(c), how))       # (a shallow copy may legitimately share its parts with the original)
+                c = c_new
             before = H.state_of(c)
             act_before = {m for m, v in zip(NAMES, before) if v != "-"}
             out = H.apply_impl(c, op)
@@ -125,6 +142,26 @@ def oracle(ctx, widen=1):
             elif op[0] == "clear":
                 if act:
                     bad = ("clear", "clear() left constraints active")
+            if not bad:
+                for obj, st0, how in frozen:
+                    if not H.same_state(H.state_of(obj), st0):
+                        bad = ("copy-aliasing", f"{H.op_line(op)} on a {how} of a constraint set changed the original from {H.show_state(st0)} to {H.show_state(H.state_of(obj))}")
+                        break
+            if not bad and op[0] == "bulkt" and not out.startswith("EXC"):
+                # every entry point of a bulk assignment follows the same rule: the list form of the constructor is the tuple form
+                items = tuple((nm if (nm in VOID and k == "true") else (nm, v)) for nm, k, v in op[1])
+                try:
+                    c3 = Constraints(list(items)); o3 = "ok"
+                except DiffcalcException:
+                    o3 = "dce"
+                except TypeError:
+                    o3 = "typeErr"
+                except Exception as e:  # noqa
+                    o3 = "EXC:" + type(e).__name__
+                if o3 != out and not (o3.startswith("EXC") or out.startswith("EXC")):
+                    bad = ("entry-points", f"Constraints(list) answered {o3} where assigning the same entries as a tuple answered {out}: {items}")
+                elif o3 == "ok" and not H.same_state(H.state_of(c3), st):
+                    bad = ("entry-points", f"Constraints(list of {items}) holds {H.show_state(H.state_of(c3))}, assigning the same entries as a tuple gives {H.show_state(st)}")
             if not bad and oi % 3 == 0:
                 for how in ("asdict", "astuple"):
                     try:
